@@ -82,7 +82,7 @@ func run(prop, tier, repo, verif, tags string, seed int, start time.Time) (code 
 		}
 		sort.Strings(ps)
 		fmt.Printf("xpcheck: unknown property %q (have %v)\n", prop, ps)
-		return 2
+		return 3
 	}
 	r := newReport(prop, tier, w)
 	if _, err := w.Census(); err != nil {
